@@ -163,6 +163,15 @@ CARRIERS = [
     "x = '''abc\n",
     "  x = 1\n",
     "if a:\n    b\n  c\n",
+    # nested blocks, dedent to a non-zero level, header lines whose body can be lost
+    "class A:\n    def f(self):\n        if x:\n            pass\n    y = 1\n",
+    "def f():\n    for a in b:\n        x\n    e\n",
+    "class A:\n    def f(self):\n        pass\n    @d\n    def g(self): pass\n",
+    "if a:\n    if b:\n        c\n    else:\n        d\ne\n",
+    "while a:\n  try:\n    b\n  finally:\n    c\n  d\n",
+    "x = [\n  1,\n\n  # c\n  2\n]\n",
+    "f(a,\n  b\n  c)\n",
+    "s = \"\"\"a\nb\n\"\"\" 1\n",
     # version-gated constructs
     "try:\n    pass\nexcept* E:\n    pass\n",
     "type X = int\n",
